@@ -27,4 +27,15 @@ META["C01"] = {
     "technique": "property-based testing (rapid): round-trip oracle + independent reference verifier on the wire bytes",
 }
 
+META["C05"] = {
+    "text": "Structure-aware mutation testing plus coverage-guided fuzzing against an independent well-formedness judge: every input any of the seven decoders accepts must be well-formed COSE of that decoder's kind as the property statement defines it. Exploration is the right level for a statement over all byte strings; the mutators are built to put every clause of the statement (each rejection rule, each tree depth) to the test and the driver refuses to pass when a clause class is empty.",
+    "note": TRUST + " The reference judge is never stricter than the statement (see DESIGN.md C05 'S'). Known findings F6 (NaN duplicate keys) and F9 (tag 55799 stripped inside protected headers) are listed in known-findings.txt and excluded by root-cause key.",
+    "technique": "property-based testing (rapid) with CBOR-tree mutators + native go fuzzing; oracle: independent RFC 9052 well-formedness judge",
+}
+META["C06"] = {
+    "text": "Robustness exploration: mutated messages, headers and keys, random bytes and pathological nestings are fed to all nine decoding entry points and, when decoded, through every follow-up operation, under recover and a deadline. Exploration (property-based + coverage-guided fuzzing) is the natural level for 'never panics on any input'.",
+    "note": TRUST + " Finds only panics and slowness on inputs the generators and the fuzzer reach.",
+    "technique": "property-based testing (rapid) with structure-aware mutators + native go fuzzing; oracle: no panic / deadline",
+}
+
 NOT_APPLICABLE = {}
